@@ -1991,13 +1991,34 @@ impl<'a> TokenBasedLuaGenerator<'a> {
     #[inline]
     fn needs_space(&self, next_character: char) -> bool {
         if let Some(last) = self.output.chars().last() {
-            utils::should_break_with_space(last, next_character)
-                || (last == '.'
-                    && (next_character.is_ascii_alphabetic() || next_character == '_')
-                    && self.ends_with_number_dot())
+            if last.is_ascii_digit() && next_character == '.' {
+                // only a number needs to be separated from a dot: an identifier
+                // ending with a digit does not (`value1..value2`)
+                self.ends_with_number()
+            } else if last == '.' && next_character.is_ascii_digit() {
+                // a digit can directly follow a concat operator (`a..2`), but not a
+                // single dot (it would read as a decimal number)
+                !self.output.ends_with("..") || self.output.ends_with("...")
+            } else {
+                utils::should_break_with_space(last, next_character)
+                    || (last == '.'
+                        && (next_character.is_ascii_alphabetic() || next_character == '_')
+                        && self.ends_with_number_dot())
+            }
         } else {
             false
         }
+    }
+
+    /// Returns true when the last word of the output starts with a digit
+    fn ends_with_number(&self) -> bool {
+        self.output
+            .chars()
+            .rev()
+            .take_while(|c| c.is_ascii_alphanumeric() || *c == '_')
+            .last()
+            .map(|first| first.is_ascii_digit())
+            .unwrap_or(false)
     }
 
     /// Returns true when the output ends with a number written with a trailing
